@@ -21,10 +21,10 @@ LEVEL = 'exploration'
 TECHNIQUE = ('controlled schedule exploration of real threads with a deterministic sys.monitoring LINE scheduler; '
              'old/new decision oracle; rule-store read/mutation log for mechanism classification')
 RULE = ('schedules = plans over two threads X (reloading) and Y (deciding) on one enforcer: P1 `EDIT; X@k; Y; X`, '
-        'P2 `Y@k; EDIT; X; Y` for EVERY library line boundary k (exhaustive), P5 `Y@f; EDIT; X@k; Y; X` with Y stopped right after it fetched a check from the store and EVERY boundary k of the reload (exhaustive), P3 `EDIT; X@k1; Y@k2; X; Y` and '
+        'P2 `Y@k; EDIT; X; Y` for EVERY library line boundary k (exhaustive), P6 `Y@k; EDIT; X; Y` on a never-loaded enforcer, so that Y is inside its FIRST load at EVERY boundary k when the files change (exhaustive), P5 `Y@f; EDIT; X@k; Y; X` with Y stopped right after it fetched a check from the store and EVERY boundary k of the reload (exhaustive), P3 `EDIT; X@k1; Y@k2; X; Y` and '
         'P4 `Y@k2; EDIT; X@k1; Y; X` sampled (thorough: exhaustive around the state-changing boundaries); scenarios: '
         'main-file edit with directory overrides, directory edit, registered defaults with a permissive default rule, '
-        'deprecated default with old-name override, deprecated default OR-merged (enforce_new_defaults off), undefined name decided by the default rule, default rule overridden in a policy directory, no main file, rules differing only through rule: references; every '
+        'deprecated default with old-name override, deprecated default OR-merged (enforce_new_defaults off), undefined name decided by the default rule, default rule overridden in a policy directory, no main file, rules differing only through rule: references, a main-file edit that drops a rule (referenced by another rule / referenced by nothing); every '
         'probe (name, roles) of the scenario for the deciding thread. Non-trivial = the plan pre-empts a thread strictly '
         'inside its load step; distinct = distinct (scenario, plan, probes).')
 ASSUMPTIONS = ['pre-emption points are library line boundaries; a switch inside a third-party call (YAML parsing, os.stat) '
@@ -36,7 +36,7 @@ LEVEL_TEXT = ('Every single pre-emption point of the reload (P1) and of the deci
               'Schedules at line granularity are finite per scenario, so the single-switch families are complete.')
 LEVEL_NOTE = 'trusted: the scheduler (semaphore hand-over, one runnable thread), the store log wrappers, fresh-enforcer oracle'
 PLAN = {'quick': dict(shards=16, wall=150), 'thorough': dict(shards=16, wall=520)}
-MIN = {'evaluations': 1000, 'preemptions_inside_reload': 500, 'store_reads_logged': 5000}
+MIN = {'first_load_races': 1000, 'evaluations': 1000, 'preemptions_inside_reload': 500, 'store_reads_logged': 5000}
 ANCHORS = ['oslo_policy.policy:Enforcer.load_rules', 'oslo_policy.policy:Enforcer._load_policy_file',
            'oslo_policy.policy:Enforcer.set_rules', 'oslo_policy.policy:Enforcer.enforce']
 REQUIRED_ANCHORS = ['oslo_policy.policy:Enforcer.enforce', 'oslo_policy.policy:Enforcer.load_rules']
@@ -74,6 +74,12 @@ SCEN = {
         old={'policy.yaml': {'default': 'role:admin', 'a': 'role:x'}, 'pd/1.yaml': {'default': '@'}},
         new={'policy.yaml': {'default': 'role:admin', 'a': 'role:y'}},
         defaults=[], probes=[['ghost', []], ['ghost', ['admin']], ['a', ['x']], ['a', ['y']]]),
+    'main_drops_rule': dict(
+        old={'policy.yaml': {'a': 'role:x', 'gone': 'role:g', 'h': 'rule:gone or role:x'}}, new={'policy.yaml': {'a': 'role:x', 'h': 'role:x'}},
+        defaults=[['c', 'role:z', None]], probes=[['a', ['x']], ['gone', ['g']], ['c', ['z']], ['h', ['g']], ['h', ['x']]]),
+    'main_drops_unreferenced_rule': dict(
+        old={'policy.yaml': {'a': 'role:x', 'gone': 'role:g', 'b': 'role:w'}}, new={'policy.yaml': {'a': 'role:x', 'b': 'role:w or role:v'}},
+        defaults=[['c', 'role:z', None]], probes=[['a', ['x']], ['gone', ['g']], ['b', ['v']], ['c', ['z']]]),
     'no_main': dict(
         old={'pd/1.yaml': {'a': '@'}}, new={'pd/1.yaml': {'a': '@', 'b': '!'}},
         defaults=[['c', '@', None]], probes=[['a', []], ['c', []]]),
@@ -196,13 +202,21 @@ def pkey(p):
     return '%s/%s' % (p[0], ','.join(p[1]))
 
 
-def execute(sc, pX, pY, plan, trace=False):
+def execute(sc, pX, pY, plan, trace=False, preload=True):
     from oslo_policy import policy
     enf, tree = build(sc)
     try:
         probes = sc['probes']
-        old = {pkey(p): dec(enf, p) for p in probes}
-        sig_old = sig(enf.rules)
+        if preload:
+            old = {pkey(p): dec(enf, p) for p in probes}
+            sig_old = sig(enf.rules)
+        else:
+            # the enforcer under test has never loaded anything: the first decision's own load step is a complete first
+            # load.  The settled old policy is measured on a twin enforcer.
+            twin = policy.Enforcer(tree.conf(**sc.get('conf', {})))
+            register(policy, twin, sc)
+            old = {pkey(p): dec(twin, p) for p in probes}
+            sig_old = sig(twin.rules)
         del LOG[:]
         del MUT[:]
         tids = {}
@@ -228,11 +242,26 @@ def execute(sc, pX, pY, plan, trace=False):
         tree.cleanup()
 
 
-def classify(who, p, ex, defs):
+def references(sc, name):
+    """Does any rule of the old or new policy (files or registered defaults) refer to `name` through rule:?"""
+    import re
+    texts = [v for ver in ('old', 'new') for c in sc[ver].values() if c for v in c.values()]
+    texts += [cs for _, cs, _ in sc['defaults']] + [dep[1] for _, _, dep in sc['defaults'] if dep]
+    pat = re.compile(r'(^|[\s(])rule:%s($|[\s)])' % re.escape(name))
+    return any(isinstance(t, str) and pat.search(t) for t in texts)
+
+
+def classify(who, p, ex, defs, sc=None):
     rr = ex['res'].get(who)
     if isinstance(rr, str):
         if rr.startswith('EXC:RuntimeError:dictionary changed size'):
             return 'reload-iteration-race'
+        if rr.startswith("EXC:KeyError:'") and sc is not None:
+            # a name that could not be looked up: if some rule refers to it through rule:, the walk that validates the rule
+            # set after a load followed that reference into a store which another thread had swapped in meanwhile
+            missing = rr[len("EXC:KeyError:'"):].rstrip("'")
+            if references(sc, missing):
+                return 'validation-follows-reference-into-swapped-store'
         return 'exception-' + rr.split(':')[1]
     mine = [(i, k, sg) for w, i, k, sg in ex['log'] if w == who]
     sigs = [sg for _, _, sg in mine]
@@ -254,7 +283,7 @@ def check_plan(ctx, case):
     sc = SCEN[case['scenario']]
     pX, pY, plan = case['pX'], case['pY'], case['plan']
     try:
-        ex = execute(sc, pX, pY, plan)
+        ex = execute(sc, pX, pY, plan, preload=case.get('preload', True))
     except sched.Watchdog as e:
         ctx.inconclusive('scheduler watchdog: %s' % e)
         return None
@@ -278,7 +307,7 @@ def check_plan(ctx, case):
         rr = ex['res'].get(who)
         ctx.count('decisions_observed')
         if rr not in (ex['old'][pkey(p)], ex['new'][pkey(p)]):
-            key = classify(who, p, ex, defs)
+            key = classify(who, p, ex, defs, sc)
             ctx.count('violating_decisions.' + key)
             ctx.violation(key, case, {'thread': who, 'probe': p, 'decision': rr, 'under_old_policy': ex['old'][pkey(p)],
                                       'under_new_policy': ex['new'][pkey(p)], 'plan': plan, 'scenario': case['scenario'],
@@ -291,7 +320,11 @@ def check_plan(ctx, case):
         explained = all(e in defs for e in ex['sig_settled'])
         plain_defaults = {n: env.printed(cs) for n, cs, dep in sc['defaults'] if not dep}
         settled_defs = dict(ex['sig_settled'])
-        if differing and differing <= dep_names and explained:
+        if not case.get('preload', True) and ex['sig_settled'] == ex['sig_old'] and ex['sig_old'] != ex['sig_new']:
+            # two loads raced (the deciding thread was inside its FIRST load when the files changed and the other thread
+            # loaded the new files completely): the older load finished last and the complete OLD policy stays in force
+            key = 'older-load-finishes-last'
+        elif differing and differing <= dep_names and explained:
             key = 'stale-deprecated-merge-after-race'
         elif (differing and explained and differing <= set(plain_defaults) and
               all(settled_defs.get(n) == plain_defaults[n] for n in differing)):
@@ -314,6 +347,14 @@ def calibrate(name):
     a = execute(sc, p, p, [['EDIT'], ['X', None], ['Y', None]], trace=True)
     b = execute(sc, p, p, [['Y', None], ['EDIT'], ['X', None]], trace=True)
     return a['counts']['X'], b['counts']['Y'], b
+
+
+def first_load_boundaries(name):
+    """Number of library line boundaries of a decision whose own load step is the enforcer's FIRST load."""
+    sc = SCEN[name]
+    p = sc['probes'][0]
+    ex = execute(sc, p, p, [['Y', None], ['EDIT'], ['X', None]], preload=False)
+    return ex['counts']['Y']
 
 
 def post_fetch_points(sc, probe, limit):
@@ -422,6 +463,33 @@ def run(ctx):
                 break
         ctx.stratum('P1', exhaustive=done)
         ctx.stratum('P2', exhaustive=done)
+        # ---- P6: the decider is inside its FIRST load (never-loaded enforcer) at EVERY boundary when the files change and
+        # the other thread loads them completely ------------------------------------------------------------------------
+        done6 = done
+        if done:
+            for name in names:
+                sc = SCEN[name]
+                nF = first_load_boundaries(name)
+                ctx.count('boundaries_first_load.' + name, nF if ctx.shard == 0 else 0)
+                for pY in (sc['probes'] if ctx.tier == 'thorough' else sc['probes'][:2]):
+                    for k in range(1, nF + 1):
+                        idx += 1
+                        if not ctx.mine(idx):
+                            continue
+                        if (idx & 0x1f) == 0 and ctx.expired():
+                            done6 = False
+                            break
+                        case = dict(family='P6', scenario=name, pX=sc['probes'][0], pY=pY, preload=False,
+                                    plan=[['Y', k], ['EDIT'], ['X', None], ['Y', None]])
+                        check_plan(ctx, case)
+                        ctx.count('first_load_races')
+                        if idx % 3000 == 0:
+                            ctx.sample(case, 'P6')
+                    if not done6:
+                        break
+                if not done6:
+                    break
+        ctx.stratum('P6', exhaustive=done6)
         # ---- P5: the decider already holds a fetched check; the reload is pre-empted at EVERY boundary ----------------
         done5 = done
         if done:
